@@ -10,7 +10,7 @@ def _norm(s):
 
 def _loops_over_parts(co):
     """the loop that folds the word ids runs over path[begin..end] (written with .iter(), as a borrow, or through a binding)"""
-    m = re.search(r"fornodein(.*?)\{letdata=node\.word_info\(\)\.borrow_data\(\);", co)
+    m = re.search(r"fornodein([^{};]*)\{[^{}]*wid=wid\.max\(node\.word_id\(\)\);", co)
     if not m:
         return False
     src = m.group(1)
